@@ -19,8 +19,9 @@ const (
 )
 
 var (
-	ErrBadChecksum     = errors.New("invalid input checksum")
-	ErrMissingChecksum = errors.New("input string is smaller than the checksum size")
+	ErrBadChecksum          = errors.New("invalid input checksum")
+	ErrMissingChecksum      = errors.New("input string is smaller than the checksum size")
+	ErrInvalidAddressLength = errors.New("invalid address length")
 )
 
 // Address represents the 33 byte address of a HyperSDK account
@@ -48,8 +49,8 @@ func ToAddress(b []byte) (Address, error) {
 
 // StringToAddress returns Address with bytes set to the hex decoding
 // of s.
-// StringToAddress uses copy, which copies the minimum of
-// either AddressLen or the length of the hex decoded string.
+// StringToAddress returns an error if s is not the checksummed hex
+// encoding of exactly AddressLen bytes.
 func StringToAddress(s string) (Address, error) {
 	var a Address
 	if err := a.UnmarshalText([]byte(s)); err != nil {
@@ -73,6 +74,9 @@ func (a *Address) UnmarshalText(input []byte) error {
 	decoded, err := fromChecksum(string(input))
 	if err != nil {
 		return err
+	}
+	if len(decoded) != AddressLen {
+		return fmt.Errorf("%w: got %d bytes, expected %d", ErrInvalidAddressLength, len(decoded), AddressLen)
 	}
 
 	copy(a[:], decoded)
